@@ -2,7 +2,6 @@
 //! source -> model-token translation for the restricted source alphabet the enumerators use.
 
 use reftex::scanum::{Glue, ScanError, Tok};
-use serde_json::Value;
 
 /// Values of the scratch registers `\count1`, `\dimen1`, `\skip1` that a constant may refer to.
 #[derive(Clone, Copy, Debug, Default)]
@@ -184,26 +183,27 @@ pub struct Obs {
     pub errors: Vec<String>,
 }
 
-/// Run a whole program on a fresh VM.
+/// Run a whole program on a fresh VM. The titles of the recovered errors are obtained by re-running
+/// the program with an error budget of k = 0, 1, ..: the harness state turns error k+1 into the fatal
+/// error of the run (errormode::Component keeps the errors, but has no accessor).
 pub fn run_program(src: &str) -> Result<Obs, vcore::Panic> {
     vcore::catch(|| {
         let mut vm = vtex::new_vm();
         let r = vtex::run(&mut vm, src);
+        let n = vm.state.env.errs.get();
+        // the run ends with the end-of-line character of the only line: a space token
+        let out = r.out.strip_suffix(' ').map(|s| s.to_string()).unwrap_or(r.out);
         let mut errors = vec![];
-        if vm.state.env.errs.get() > 0 {
-            // errormode::Component keeps the recovered errors; its only public face is serde
-            let v: Value = serde_json::to_value(&vm.state.error_mode).unwrap_or(Value::Null);
-            if let Some(a) = v["errors"].as_array() {
-                for e in a {
-                    errors.push(e["error"]["title"].as_str().unwrap_or("?").to_string());
-                }
-            }
-            // keep the hook's count authoritative
-            while (errors.len() as u64) < vm.state.env.errs.get() {
-                errors.push("?".into());
-            }
+        for k in 0..n.min(8) {
+            let mut vm = vtex::new_vm();
+            vm.state.env.err_budget.set(k);
+            let r = vtex::run(&mut vm, src);
+            errors.push(r.err.unwrap_or_else(|| "?".into()));
         }
-        Obs { out: r.out, fatal: r.err, errors }
+        while (errors.len() as u64) < n {
+            errors.push("?".into());
+        }
+        Obs { out, fatal: r.err, errors }
     })
 }
 
